@@ -46,6 +46,33 @@ class Session:
         except (BrokenPipeError, OSError):
             return False
 
+    def send_batch(self, msgs, chunks=1, gap=0.0):
+        """Write several messages back to back (one write per chunk), so that they queue up in the server's stdin.
+        `msgs` are complete JSON-RPC objects; requests must carry their own ids (see new_id)."""
+        bufs = []
+        with self.cv:
+            for m in msgs:
+                self.seq += 1
+                self.log.append((self.seq, "c2s", m))
+                data = json.dumps(m).encode()
+                bufs.append(b"Content-Length: %d\r\n\r\n" % len(data) + data)
+        chunks = max(1, min(chunks, len(bufs)))
+        per = -(-len(bufs) // chunks)
+        try:
+            for i in range(0, len(bufs), per):
+                self.p.stdin.write(b"".join(bufs[i:i + per]))
+                self.p.stdin.flush()
+                if gap:
+                    time.sleep(gap)
+            return True
+        except (BrokenPipeError, OSError):
+            return False
+
+    def new_id(self):
+        i = self.next_id
+        self.next_id += 1
+        return i
+
     def _reader(self):
         f = self.p.stdout
         while True:
